@@ -85,19 +85,27 @@ func (r *Result) CalculateWinnerRewards(potIdx int, l *LevelInfo) {
 	winners := l.rank.GetWinners()
 
 	// Calculate rewards
-	based := l.Total / int64(len(winners))
-	remainder := l.Total % int64(len(winners))
+	count := int64(len(winners))
+	based := l.Total / count
+	remainder := l.Total % count
+
+	// Odd chips are dealt round-robin: continue where the previous level of
+	// this pot stopped, so that shares of one pot differ by one chip at most
+	pot := r.Pots[potIdx]
+	offset := pot.oddChipOffset % count
 
 	for i, wIdx := range winners {
 
 		reward := based
 
-		if int64(i) < remainder {
+		if (int64(i)-offset+count)%count < remainder {
 			reward += 1
 		}
 
 		r.Update(potIdx, wIdx, l.Wager, reward-l.Wager)
 	}
+
+	pot.oddChipOffset = (offset + remainder) % count
 }
 
 func (r *Result) CalculateLoserResults(potIdx int, l *LevelInfo) {
